@@ -9,6 +9,10 @@ Regenerated (translated; a change of the source changes the Coq text the theorem
     state method, what a transferring transfer becomes, which helper methods run, registration through add())
   * TransferManager.abort / queue / pause: which state method with which arguments, "raise InvalidStateTransition
     iff it returned a false value"
+Helpers (phase 8): TransferDirection / AbortReason values regenerated; pinned: Transfer.__init__, take_progress_snapshot,
+get_speed, is_transferring, TransferProgressSnapshot, FailReason, TransferShelveCache.__init__, TransferNullCache, TransferCache,
+TransferStateListener, TransferManager.__init__ / transfers / read_cache, _RequestFlag, BaseManager, the three transfer
+exceptions, EventBus.register / emit / _get_listeners_for_event, TransferAddedEvent, SoulSeekClient.start / stop.
 Fingerprinted (normalised AST must equal translate/pins_transfer.json; any edit is a broken tie that triggers the
 directed search of the checks): Transfer.__getstate__, __setstate__, transition, cancel_tasks, get_tasks, is_transfered,
 __eq__, the two task-done callbacks, TransferManager.add / write_cache / load_data / store_data /
@@ -224,6 +228,47 @@ def read_cache(cls):
     return res
 
 
+# helpers the anchored code relies on (phase 8): pinned by normalised AST.  (file, dotted name): a class is pinned whole
+HELPER_PINS = [
+    ('aioslsk/transfer/model.py', 'Transfer.__init__'), ('aioslsk/transfer/model.py', 'Transfer.take_progress_snapshot'),
+    ('aioslsk/transfer/model.py', 'Transfer.get_speed'), ('aioslsk/transfer/model.py', 'Transfer.is_transferring'),
+    ('aioslsk/transfer/model.py', 'TransferProgressSnapshot'), ('aioslsk/transfer/model.py', 'FailReason'),
+    ('aioslsk/transfer/cache.py', 'TransferShelveCache.__init__'), ('aioslsk/transfer/cache.py', 'TransferNullCache'),
+    ('aioslsk/transfer/cache.py', 'TransferCache'),
+    ('aioslsk/transfer/state.py', 'TransferStateListener'),
+    ('aioslsk/transfer/manager.py', 'TransferManager.__init__'), ('aioslsk/transfer/manager.py', 'TransferManager.transfers'),
+    ('aioslsk/transfer/manager.py', 'TransferManager.read_cache'), ('aioslsk/transfer/manager.py', '_RequestFlag'),
+    ('aioslsk/base_manager.py', 'BaseManager'),
+    ('aioslsk/exceptions.py', 'TransferException'), ('aioslsk/exceptions.py', 'TransferNotFoundError'),
+    ('aioslsk/exceptions.py', 'InvalidStateTransition'),
+    ('aioslsk/events.py', 'EventBus.register'), ('aioslsk/events.py', 'EventBus.emit'),
+    ('aioslsk/events.py', 'EventBus._get_listeners_for_event'), ('aioslsk/events.py', 'TransferAddedEvent'),
+    ('aioslsk/client.py', 'SoulSeekClient.start'), ('aioslsk/client.py', 'SoulSeekClient.stop'),
+]
+
+
+def find_dotted(tree, dotted):
+    node = tree
+    for part in dotted.split('.'):
+        for n in node.body:
+            if isinstance(n, (ast.ClassDef, ast.FunctionDef, ast.AsyncFunctionDef)) and n.name == part:
+                node = n
+                break
+        else:
+            raise Refuse(f'{dotted} not found')
+    return node
+
+
+def enum_values(tree, name):
+    cls = find_class(tree, name)
+    out = []
+    for s in strip_doc(cls.body):
+        if not (isinstance(s, ast.Assign) and len(s.targets) == 1 and isinstance(s.targets[0], ast.Name)):
+            refuse(s, f'{name} member')
+        out.append((s.targets[0].id, ast.literal_eval(s.value)))
+    return out
+
+
 def current_pins(src: Path) -> dict:
     out = {}
     trees = {'model': ast.parse((src / 'aioslsk/transfer/model.py').read_text()),
@@ -234,6 +279,11 @@ def current_pins(src: Path) -> dict:
         cls = find_class(trees[mod], classes[mod])
         for n in names:
             out[f'{classes[mod]}.{n}'] = norm(find_method(cls, n))
+    parsed = {}
+    for f, dotted in HELPER_PINS:
+        if f not in parsed:
+            parsed[f] = ast.parse((src / f).read_text())
+        out[f'{f}:{dotted}'] = norm(find_dotted(parsed[f], dotted))
     return out
 
 
@@ -271,6 +321,14 @@ def translate(src: Path) -> dict:
     if unpick is None:
         raise Refuse('_UNPICKABLE_FIELDS not found')
 
+    # ---- enum / constant values the models and harnesses use
+    tdir = dict(enum_values(model, 'TransferDirection'))
+    if sorted(tdir) != ['DOWNLOAD', 'UPLOAD'] or not all(isinstance(v, int) and 0 <= v <= 9 for v in tdir.values()):
+        raise Refuse(f'TransferDirection members {tdir}')
+    areason = dict(enum_values(model, 'AbortReason'))
+    if 'REQUESTED' not in areason or not isinstance(areason['REQUESTED'], str):
+        raise Refuse('AbortReason.REQUESTED')
+
     rc = read_cache(M)
     mops = {n: manager_op(M, n) for n in ('abort', 'queue', 'pause')}
 
@@ -304,6 +362,10 @@ def translate(src: Path) -> dict:
                ' '.join(f'| {c} => ({mops[n][0]}, {"true" if mops[n][1] else "false"})'
                         for c, n in (('MAbort', 'abort'), ('MQueue', 'queue'), ('MPause', 'pause'))) + ' end.\n')
     out.append('Definition mgr_raises_iff_refused : bool := true.\n')
+    out.append('(* TransferDirection values (str(direction.value) is part of the cache key), AbortReason.REQUESTED *)\n')
+    out.append(f'Definition dir_value (d : direction) : nat := match d with Upload => {tdir["UPLOAD"]} | Download => {tdir["DOWNLOAD"]} end.\n')
+    out.append(f'Definition abort_reason_requested : string := "{areason["REQUESTED"]}".\n')
+    out.append('Definition abort_reasons : list string := ' + strs(v for v in areason.values()) + '.\n')
     out.append('(* Transfer.transition notifies the listeners itself, i.e. while the caller holds the state lock (fingerprinted) *)\n')
     out.append('Definition notify_inside_lock : bool := true.\n')
     return {'TransferGen.v': ''.join(out)}
